@@ -19,6 +19,12 @@ structure GenFacts : Prop where
   skips : Gen.Cursor.skipsEmptyTables = true
   limit : ∀ p m : Nat, Gen.Cursor.limitReached (p : Int) (m : Int) ↔ m ≤ p
   bump : ∀ p : Nat, (Gen.Cursor.processedAfter (p : Int)).toNat = p + 1
+  /-- a completing `append` on a frame whose rows are not a list drops the cursor -/
+  appendLazy : ∀ r n, Gen.Cursor.appendDropsCursor false r n = true
+  /-- wherever `append` can be left by an exception: if the row has been stored, or the iterator behind a
+  lazily backed frame has been run to its end by `materialize()`, the cursor has been dropped -/
+  rejectSafe : ∀ p ∈ Gen.Cursor.appendPoints, ∀ l r n,
+    (p.stored l r n = true → p.dropped l r n = true) ∧ (p.materialized false r n = true → p.dropped false r n = true)
 
 /-! ### lists -/
 
@@ -158,7 +164,7 @@ theorem forRange_pull (body : List α × Backing α → Loop (List α × Backing
 def storeOk (b : Backing α) (s : State α) : Prop :=
   match b with
   | .eager rows _ => s.rows = rows
-  | .lazy _ => s.valid = true
+  | .lazy _ => True
 
 /-- The code machine `f` and the spec machine `s` are at the same point of the same history. -/
 def Sim (f : Frame α) (s : State α) : Prop :=
@@ -173,8 +179,18 @@ theorem storeOk_of_store {b b' : Backing α} {s s' : State α} (h : b'.store = b
 lazily backed one. -/
 def Allowed (f : Frame α) (op : Op α) : Prop := f.backing.store.isSome = true ∨ LazyOk op = true
 
+theorem rejectPoint_safe (G : GenFacts) (stage : Nat) (l r n : Bool) :
+    ((rejectPoint stage).stored l r n = true → (rejectPoint stage).dropped l r n = true) ∧
+    ((rejectPoint stage).materialized false r n = true → (rejectPoint stage).dropped false r n = true) := by
+  unfold rejectPoint
+  cases hg : Gen.Cursor.appendPoints[stage]? with
+  | none => simp
+  | some p => simpa using G.rejectSafe p (List.mem_of_getElem? hg) l r n
+
+/-- One step of the code machine is the step of the spec machine on the same operation — a rejected
+append read as `Impl.tag` says (`drops` = what the source's statement order leaves behind). -/
 theorem step_sim (G : GenFacts) (f : Frame α) (s : State α) (op : Op α) (h : Sim f s) (ha : Allowed f op) :
-    (Impl.step f op).2 = (step s op).2 ∧ Sim (Impl.step f op).1 (step s op).1 := by
+    (Impl.step f op).2 = (step s (Impl.tag f op)).2 ∧ Sim (Impl.step f op).1 (step s (Impl.tag f op)).1 := by
   obtain ⟨hsize, hlive, hrest, hstore⟩ := h
   have dead : s.valid = false → ∀ (o : Op α), (Impl.step f o = (f, .err) ∧ step s o = (s, .err)) →
       (Impl.step f o).2 = (step s o).2 ∧ Sim (Impl.step f o).1 (step s o).1 := by
@@ -183,6 +199,7 @@ theorem step_sim (G : GenFacts) (f : Frame α) (s : State α) (op : Op α) (h : 
     exact ⟨rfl, hsize, hlive, by simp [hv'], hstore⟩
   cases op with
   | fetchone =>
+    simp only [Impl.tag]
     by_cases hv : s.valid = true
     · have hl : f.live = true := by rw [hlive, hv]
       have hn := Backing.next_spec G f.backing
@@ -206,6 +223,7 @@ theorem step_sim (G : GenFacts) (f : Frame α) (s : State α) (op : Op α) (h : 
       have hl : f.live = false := by rw [hlive, hv']
       exact dead hv' _ ⟨by simp [Impl.step, G.guardOne, hl], by simp [step, hv']⟩
   | fetchmany k =>
+    simp only [Impl.tag]
     by_cases hv : s.valid = true
     · have hl : f.live = true := by rw [hlive, hv]
       have hp := pull_spec G (k.getD s.arraysize) f.backing
@@ -225,6 +243,7 @@ theorem step_sim (G : GenFacts) (f : Frame α) (s : State α) (op : Op α) (h : 
       have hl : f.live = false := by rw [hlive, hv']
       exact dead hv' _ ⟨by simp [Impl.step, G.guardMany, hl], by simp [step, hv']⟩
   | fetchall =>
+    simp only [Impl.tag]
     by_cases hv : s.valid = true
     · have hl : f.live = true := by rw [hlive, hv]
       have hp := pull_fuel G f.backing
@@ -245,6 +264,7 @@ theorem step_sim (G : GenFacts) (f : Frame α) (s : State α) (op : Op α) (h : 
       exact dead hv' _ ⟨by simp [Impl.step, G.guardAll, hl], by simp [step, hv']⟩
   | setArraysize n => exact ⟨rfl, rfl, hlive, hrest, hstore⟩
   | observe k =>
+    simp only [Impl.tag]
     have hS : step s (.observe k) = (s, .unit) := rfl
     rw [hS]
     cases hb : f.backing with
@@ -268,6 +288,7 @@ theorem step_sim (G : GenFacts) (f : Frame α) (s : State α) (op : Op α) (h : 
       | rows => simp [Allowed, hb, Backing.store, LazyOk] at ha
       | nbytes => simp [Allowed, hb, Backing.store, LazyOk] at ha
   | append r =>
+    simp only [Impl.tag]
     have hS : step s (.append r) = ({ s with rows := s.rows ++ [r], valid := false }, .unit) := rfl
     rw [hS]
     cases hb : f.backing with
@@ -279,7 +300,41 @@ theorem step_sim (G : GenFacts) (f : Frame α) (s : State α) (op : Op α) (h : 
       rw [hb] at hstore
       simp only [storeOk] at hstore
       exact ⟨rfl, hsize, rfl, by simp, by simp [storeOk, hstore]⟩
-    | lazy src => simp [Allowed, hb, Backing.store, LazyOk] at ha
+    | lazy src =>
+      -- `materialize()` has run the iterator to its end and the cursor is dropped: every fetch refuses
+      simp only [Impl.step, hb, G.appendLazy]
+      exact ⟨trivial, hsize, by simp, by simp, by split <;> simp [storeOk]⟩
+  | reject st d r =>
+    have hP := rejectPoint_safe G st
+    cases hb : f.backing with
+    | eager rows p =>
+      rw [hb] at hstore
+      simp only [storeOk] at hstore
+      by_cases hs : (rejectPoint st).stored true f.schemaRel f.nbytesTracked = true
+      · -- left after the row was stored: then the cursor has been dropped — an append, for the frame
+        have hd := (hP true f.schemaRel f.nbytesTracked).1 hs
+        simp only [Impl.tag, Impl.step, Impl.rejectStores, Impl.rejectDrops, hb, hs, hd, if_true, step]
+        exact ⟨trivial, hsize, by simp, by simp, by simp [storeOk, hstore]⟩
+      · simp only [Impl.tag, Impl.step, Impl.rejectStores, Impl.rejectDrops, hb, hs, if_false, step, Bool.false_eq_true]
+        refine ⟨trivial, hsize, by simp [hlive], ?_, by simp [storeOk, hstore]⟩
+        intro hv
+        simp only [Bool.and_eq_true] at hv
+        simpa [hb] using hrest hv.1
+    | lazy src =>
+      by_cases hs : (rejectPoint st).stored false f.schemaRel f.nbytesTracked = true
+      · have hd := (hP false f.schemaRel f.nbytesTracked).1 hs
+        simp only [Impl.tag, Impl.step, Impl.rejectStores, Impl.rejectDrops, hb, hs, hd, if_true, step]
+        exact ⟨trivial, hsize, by simp, by simp, by split <;> simp [storeOk]⟩
+      · by_cases hm : (rejectPoint st).materialized false f.schemaRel f.nbytesTracked = true
+        · -- the iterator has been run to its end outside the fetch calls: the cursor must be gone
+          have hd := (hP false f.schemaRel f.nbytesTracked).2 hm
+          simp only [Impl.tag, Impl.step, Impl.rejectStores, Impl.rejectDrops, hb, hs, hm, hd, if_true, if_false, step, Bool.false_eq_true]
+          exact ⟨trivial, hsize, by simp, by simp, by simp [storeOk]⟩
+        · simp only [Impl.tag, Impl.step, Impl.rejectStores, Impl.rejectDrops, hb, hs, hm, if_false, step, Bool.false_eq_true]
+          refine ⟨trivial, hsize, by simp [hlive], ?_, by simp [storeOk]⟩
+          intro hv
+          simp only [Bool.and_eq_true] at hv
+          simpa [hb] using hrest hv.1
 
 theorem allowed_step (f : Frame α) (op : Op α) (h : f.backing.store.isSome = true) (G : GenFacts) :
     (Impl.step f op).1.backing.store.isSome = true := by
@@ -299,10 +354,16 @@ theorem allowed_step (f : Frame α) (op : Op α) (h : f.backing.store.isSome = t
     | setArraysize n => simp [Impl.step, hb, Backing.store]
     | observe k => cases k <;> simp [Impl.step, hb, Backing.store]
     | append r => simp [Impl.step, hb, Backing.store]
+    | reject st d r => simp [Impl.step, hb, Backing.store]
+
+theorem lazyOk_tag (f : Frame α) (op : Op α) : LazyOk (Impl.tag f op) = LazyOk op := by
+  cases op with
+  | reject st d r => by_cases h : Impl.rejectStores f st = true <;> simp [Impl.tag, LazyOk, h]
+  | _ => rfl
 
 theorem run_sim (G : GenFacts) (ops : List (Op α)) (f : Frame α) (s : State α) (h : Sim f s)
     (ha : f.backing.store.isSome = true ∨ ∀ op ∈ ops, LazyOk op = true) :
-    (Impl.run f ops).2 = (run s ops).2 ∧ Sim (Impl.run f ops).1 (run s ops).1 := by
+    (Impl.run f ops).2 = (run s (Impl.annot f ops)).2 ∧ Sim (Impl.run f ops).1 (run s (Impl.annot f ops)).1 := by
   induction ops generalizing f s with
   | nil => exact ⟨rfl, h⟩
   | cons op ops ih =>
@@ -315,8 +376,8 @@ theorem run_sim (G : GenFacts) (ops : List (Op α)) (f : Frame α) (s : State α
       rcases ha with ha | ha
       · exact Or.inl (allowed_step f op ha G)
       · exact Or.inr (fun o ho => ha o (by simp [ho]))
-    have h2 := ih (Impl.step f op).1 (step s op).1 h1.2 ha'
-    simp only [Impl.run, run]
+    have h2 := ih (Impl.step f op).1 (step s (Impl.tag f op)).1 h1.2 ha'
+    simp only [Impl.run, run, Impl.annot]
     exact ⟨by rw [h1.1, h2.1], h2.2⟩
 
 theorem run_append (s : State α) (a b : List (Op α)) :
@@ -347,6 +408,7 @@ theorem spent_step (s : State α) (op : Op α) (h : Spent s) :
     | setArraysize n => simp [step, fetched, Spent, h]
     | observe k => simp [step, fetched, Spent, h]
     | append r => simp [step, fetched, Spent]
+    | reject st d r => simp [step, fetched, Spent, h]
 
 theorem spent_run (ops : List (Op α)) (s : State α) (h : Spent s) : ∀ o ∈ (run s ops).2, fetched o = [] := by
   induction ops generalizing s with
